@@ -76,6 +76,55 @@ def run(tier, seed, opens):
                     ok += 1
             except (WalletError, TransactionError, ValueError):
                 ok += 1
+            # scenarios on explicitly named inputs (input_arr): the same outpoint twice must be refused; an explicit fee must stay inside the network's
+            # fee-rate limits measured on the ACTUAL signed transaction (no change output: nothing imaginary may be counted into its size); an outpoint
+            # the wallet has already spent must be refused (recorded finding)
+            cases += 3
+            try:
+                from spec import wire as _wire
+                w7 = Wallet.create('c07i%d' % wn, network='bitcoinlib_test', db_uri=db, witness_type=wt)
+                k7 = w7.get_key()
+                ops7 = []
+                for j in range(3):
+                    txid = '%064x' % rng.getrandbits(256)
+                    w7.utxo_add(k7.address, 100000000, txid, j, confirmations=10)
+                    ops7.append((txid, j))
+                d7 = HDKey(network='bitcoinlib_test', witness_type=wt).address()
+                try:
+                    t7 = w7.transaction_create([(d7, 2 * 100000000 - 10000)], input_arr=[ops7[0], ops7[0]], fee=10000)
+                    fail('the same outpoint twice in input_arr', {'wallet': wt, 'input_arr': [ops7[0], ops7[0]]},
+                         'transaction with inputs %s' % [(i.prev_txid.hex()[:8], i.output_n_int) for i in t7.inputs], 'WalletError')
+                except (WalletError, TransactionError, ValueError):
+                    ok += 1
+                fmax = w7.network.fee_max
+                worst = None
+                for fee7 in (60000, 100000, 110000, 120000, 130000, 137500, 145000, 160000, 200000):
+                    try:
+                        t7 = w7.transaction_create([(d7, 100000000 - fee7)], input_arr=[ops7[1]], fee=fee7)
+                        t7.sign()
+                        raw7 = t7.raw()
+                        pv, pins, pouts, plock, pwit, used = _wire.parse_tx(raw7)
+                        stripped = len(_wire.ser_tx(pv, pins, pouts, plock, False)) if pwit else len(raw7)
+                        vsize = -(-(3 * stripped + len(raw7)) // 4)
+                        rate = fee7 * 1000 // vsize
+                        if rate > fmax * 1.05 and (worst is None or rate > worst[1]):
+                            worst = (fee7, rate, vsize)
+                    except (WalletError, TransactionError, ValueError):
+                        pass
+                if worst:
+                    fail('explicit fee on a transaction without change', {'wallet': wt, 'fee': worst[0], 'virtual_size_of_signed_transaction': worst[2]},
+                         'created with %d per kB, network maximum %d' % (worst[1], fmax), 'WalletError (fee rate above the network maximum)')
+                else:
+                    ok += 1
+                t7 = w7.send([(d7, 50000)], input_arr=[ops7[2]], fee=10000, broadcast=True)
+                try:
+                    t8 = w7.transaction_create([(d7, 1000000)], input_arr=[ops7[2]], fee=10000)
+                    fail('an already spent outpoint in input_arr', {'wallet': wt, 'history': 'send(input_arr=[X], broadcast=True); transaction_create(input_arr=[X])'},
+                         'second transaction spending the same outpoint created', 'WalletError (not currently unspent)', 'F-C07-input-arr-spent-utxo')
+                except (WalletError, TransactionError, ValueError):
+                    ok += 1
+            except (WalletError, TransactionError, ValueError) as e:
+                fail('input_arr scenarios', {'wallet': wt}, 'setup raised %s: %s' % (type(e).__name__, str(e)[:150]), 'wallet set up')
             # scenario: fee bump paid from two change outputs: the first (900) is used up, the rest (100) comes out of the second (300)
             cases += 1
             try:
@@ -144,15 +193,22 @@ def run(tier, seed, opens):
                     k5 = w5.get_key()
                     vals = [rng.choice([600, 1000, 5000, 100000, 2500000]) for _ in range(rng.choice([1, 2, 4]))]
                     u5 = {}
+                    conf5 = {}
                     for j, v in enumerate(vals):
                         txid = '%064x' % rng.getrandbits(256)
-                        w5.utxo_add(k5.address, v, txid, j, confirmations=rng.choice([1, 6]))
+                        conf5[(txid, j)] = rng.choice([0, 1, 6, 10])
+                        w5.utxo_add(k5.address, v, txid, j, confirmations=conf5[(txid, j)])
                         u5[(txid, j)] = v
                     d5 = [HDKey(network='bitcoinlib_test', witness_type=wt).address() for _ in range(targets)]
                     to = d5[0] if targets == 1 else [(d5[0], 1000), (d5[1], 0)]
-                    t5 = w5.sweep(to, fee=rng.choice([None, 2000]))
+                    need5 = rng.choice([None, None, 0, 3, 20])          # required confirmations (default 1)
+                    t5 = w5.sweep(to, fee=rng.choice([None, 2000]), **({} if need5 is None else {'min_confirms': need5}))
                     ops5 = [(i.prev_txid.hex(), i.output_n_int) for i in t5.inputs]
-                    spendable5 = {op: v for op, v in u5.items() if v > 1000}
+                    spendable5 = {op: v for op, v in u5.items() if v > 1000 and conf5[op] >= (1 if need5 is None else need5)}
+                    if any(conf5.get(op, 99) < (1 if need5 is None else need5) for op in ops5):
+                        fail('sweep', {'wallet': wt, 'scheme': w5.scheme, 'utxo_values': vals, 'confirmations': [conf5[k] for k in u5], 'min_confirms': need5, 'targets': targets},
+                             'an input has fewer confirmations than required', 'every input with the required confirmations')
+                        continue
                     pr = []
                     if len(set(ops5)) != len(ops5) or any(op not in u5 for op in ops5):
                         pr.append('inputs are not distinct wallet UTXOs')
@@ -165,7 +221,7 @@ def run(tier, seed, opens):
                     if any(o.address not in d5 for o in t5.outputs):
                         pr.append('output to an address that is not a sweep target')
                     if pr:
-                        fail('sweep', {'wallet': wt, 'scheme': w5.scheme, 'utxo_values': vals, 'targets': targets}, '; '.join(pr), 'all non-dust UTXOs to the targets, balanced')
+                        fail('sweep', {'wallet': wt, 'scheme': w5.scheme, 'utxo_values': vals, 'confirmations': [conf5[k] for k in u5], 'min_confirms': need5, 'targets': targets}, '; '.join(pr), 'all non-dust UTXOs with the required confirmations to the targets, balanced')
                     else:
                         ok += 1
                 except (WalletError, TransactionError, ValueError):
